@@ -83,6 +83,9 @@ type c07ACase struct {
 	// StallFlushMs: at the end one more record is written, the disk stalls, Flush is called and the disk resumes this much later;
 	// however long that takes, Flush returns only when the record is in the file (and later calls still work)
 	StallFlushMs int `json:"stall_flush_ms,omitempty"`
+	// FlushEveryUs: the writer's periodic flush interval in microseconds (0: an hour, i.e. never within a case). The LJH and OFF
+	// writers use 3 s; a short interval puts periodic flushes between - and, with a stalled disk, in the middle of - the operations
+	FlushEveryUs int `json:"flush_every_us,omitempty"`
 }
 
 func c07AGen(t *rapid.T) c07ACase {
@@ -95,8 +98,13 @@ func c07AGen(t *rapid.T) c07ACase {
 	if rapid.IntRange(0, 999).Draw(t, "stallflush") == 437 { // (rapid favours the ends of a range: an inner value keeps this rare, a few cases per shard)
 		c.StallFlushMs = rapid.SampledFrom([]int{300, 1200, 2300}).Draw(t, "stallms")
 	}
+	c.FlushEveryUs = rapid.SampledFrom([]int{0, 0, 0, 100, 400, 2000}).Draw(t, "flushevery")
 	n := rapid.IntRange(1, 60).Draw(t, "nops")
 	for i := 0; i < n; i++ {
+		if c.FlushEveryUs > 0 && rapid.IntRange(0, 7).Draw(t, "nap") == 0 {
+			c.Ops = append(c.Ops, c07AOp{Op: "yield", N: rapid.IntRange(4, 30).Draw(t, "napn")}) // long enough for periodic flushes to happen
+			continue
+		}
 		if deep && rapid.IntRange(0, 5).Draw(t, "burst") == 0 {
 			// many records at once, typically against a stalled disk
 			c.Ops = append(c.Ops, c07AOp{Op: "close"}, c07AOp{Op: "burst", N: rapid.IntRange(200, 1100).Draw(t, "burstn")})
@@ -126,7 +134,11 @@ func c07ARun(c c07ACase) (v vVerdict) {
 		return v
 	}
 	gate := newC07Gate()
-	aw := asyncbufio.NewWriter(gate, c.Depth, time.Hour)
+	every := time.Hour
+	if c.FlushEveryUs > 0 && c.FlushEveryUs <= 1000000 {
+		every = time.Duration(c.FlushEveryUs) * time.Microsecond
+	}
+	aw := asyncbufio.NewWriter(gate, c.Depth, every)
 	var want []byte
 	rejected, acceptedAfterReject := 0, 0
 	pos := 0
@@ -228,6 +240,9 @@ func c07ARun(c c07ACase) (v vVerdict) {
 	v.NonTrivial = rejected > 0 && acceptedAfterReject > 0
 	if rejected > 0 {
 		v.Classes = append(v.Classes, "queue-full-reached")
+	}
+	if c.FlushEveryUs > 0 {
+		v.Classes = append(v.Classes, "periodic-flushes")
 	}
 	return v
 }
